@@ -160,6 +160,32 @@ enum WrappedMessageError {
     InvalidSignature,
 }
 
+/// Verification hook: encode a freshly signed wrapped message / decode-and-verify wrapped bytes.
+#[cfg(p2panda_p2panda_verif)]
+pub fn verif_wrapped_to_bytes<M>(
+    body: M,
+    timestamp: HybridTimestamp,
+    signing_key: &SigningKey,
+) -> Option<Vec<u8>>
+where
+    M: Serialize + for<'a> Deserialize<'a>,
+{
+    WrappedMessage::new(body, timestamp, signing_key)
+        .ok()
+        .and_then(|message| message.to_bytes().ok())
+}
+
+/// Verification hook: see [`verif_wrapped_to_bytes`].
+#[cfg(p2panda_p2panda_verif)]
+pub fn verif_wrapped_from_bytes<M>(bytes: &[u8]) -> Result<(VerifyingKey, HybridTimestamp, M), String>
+where
+    M: Serialize + for<'a> Deserialize<'a>,
+{
+    WrappedMessage::<M>::from_bytes(bytes)
+        .map(|message| (message.verifying_key, message.timestamp, message.body))
+        .map_err(|err| err.to_string())
+}
+
 /// Message coming from an ephemeral stream subscription.
 ///
 /// Ephemeral messages are verified (for integrity and provenance) but not persisted on a system
